@@ -479,6 +479,9 @@ func (fabricTransport) RoundTrip(req *http.Request) (*http.Response, error) {
 	if host == "api.watttime.org" {
 		return w.wattTimeServe(req)
 	}
+	if host == "power.larc.nasa.gov" {
+		return w.nasaServe(req)
+	}
 	n := w.byLoc[host]
 	act := HTTPAction{}
 	if w.HTTPPolicy != nil {
